@@ -73,6 +73,9 @@ class Join(Box):
     def _do_parse(self, ctx: Ctx, exp: Func, sep: Func) -> Any:
         return ctx.join(exp, sep)
 
+    def missing_rules(self, rulenames: set[str]) -> set[str]:
+        return super().missing_rules(rulenames) | self.sep.missing_rules(rulenames)
+
     def _pretty(self, lean=False):
         ssep = self.sep._pretty(lean=lean)
         sexp = str(self.exp._pretty(lean=lean))
